@@ -123,9 +123,12 @@ pub fn run_addr(_args: &[String]) {
                 let e = &c["e"];
                 let want_fd = c["fd"].as_u64().unwrap() as i32;
                 // three listening sockets to be passed as descriptors 3, 4, 5
-                let ls: Vec<UnixListener> = (0..3).map(|k| UnixListener::bind(dir.join(format!("act{}-{}", i, k))).unwrap()).collect();
-                let fds: Vec<RawFd> = ls.iter().map(|l| l.as_raw_fd()).collect();
-                let probe_addr = format!("unix:{}/probe{}", dir.display(), i);
+                // every third environment row is probed with tcp sockets and a tcp address (the rules do not depend on the scheme)
+                let tcp = i % 3 == 2;
+                let ls: Vec<UnixListener> = if tcp { Vec::new() } else { (0..3).map(|k| UnixListener::bind(dir.join(format!("act{}-{}", i, k))).unwrap()).collect() };
+                let tls: Vec<std::net::TcpListener> = if tcp { (0..3).map(|_| std::net::TcpListener::bind("127.0.0.1:0").unwrap()).collect() } else { Vec::new() };
+                let fds: Vec<RawFd> = if tcp { tls.iter().map(|l| l.as_raw_fd()).collect() } else { ls.iter().map(|l| l.as_raw_fd()).collect() };
+                let probe_addr = if tcp { format!("tcp:127.0.0.1:{}", free_port(false)) } else { format!("unix:{}/probe{}", dir.display(), i) };
                 let mut script = String::new();
                 match e["pid"].as_str().unwrap() {
                     "own" => script.push_str("LISTEN_PID=$$; export LISTEN_PID; "),
@@ -179,7 +182,7 @@ pub fn run_addr(_args: &[String]) {
                     continue;
                 }
                 if want_fd != 0 {
-                    let want_path = dir.join(format!("act{}-{}", i, want_fd - 3)).display().to_string();
+                    let want_path = if tcp { format!("port {}", tls[(want_fd - 3) as usize].local_addr().unwrap().port()) } else { dir.join(format!("act{}-{}", i, want_fd - 3)).display().to_string() };
                     if v["local"] != json!(want_path) {
                         fail("activation", format!("adopted socket is {:?}, expected the one passed as descriptor {} ({})", v["local"], want_fd, want_path));
                     }
@@ -198,12 +201,13 @@ pub fn run_addr(_args: &[String]) {
 /// child: which listener does a server get in this environment?
 pub fn run_actprobe(args: &[String]) {
     let addr = &args[0];
-    let path = addr["unix:".len()..].to_string();
+    let path = addr.strip_prefix("unix:").unwrap_or("/nonexistent-not-a-unix-address").to_string();
     let r = Listener::new(addr);
     let v = match &r {
         Ok(Listener::UNIX(Some(l), act)) => json!({"ok": true, "activated": act, "fd": l.as_raw_fd(),
             "local": l.local_addr().ok().and_then(|a| a.as_pathname().map(|p| p.display().to_string())), "bound_exists": std::path::Path::new(&path).exists()}),
-        Ok(Listener::TCP(Some(l), act)) => json!({"ok": true, "activated": act, "fd": l.as_raw_fd(), "local": null, "bound_exists": false}),
+        Ok(Listener::TCP(Some(l), act)) => json!({"ok": true, "activated": act, "fd": l.as_raw_fd(),
+            "local": l.local_addr().ok().map(|a| format!("port {}", a.port())), "bound_exists": false}),
         Ok(_) => json!({"ok": true, "activated": false, "fd": -1}),
         Err(e) => json!({"ok": false, "error": format!("{:?}", e.kind()), "activated": false}),
     };
